@@ -14,6 +14,9 @@ UNITS = [
               oracle=SO.make(SO.selfsim_cases)),
     flow.Unit('riemann-driver', groups=['riemann'], props=[], custom_corr=None, oracle=RO.sym_oracle(('selfsim',)), always_oracle=True,
               note='assembled Riemann solution: self-similarity about xd0 checked on the real code (oracle); theorem covers the fans'),
+    flow.Unit('sedov-exponents', groups=['sedov'], props=['props/C10_sedov.v'], custom_corr=None, oracle=SS.oracle,
+              note='regenerated shock radius r2 ~ t^(2/(j+2-omega)) and post-shock amplitudes rho2 ~ r2^-omega, u2 ~ r2/t, p2 ~ r2^-omega (r2/t)^2 (theorems); '
+                   'the correspondence of gen/Sedov.v with the real object runs in ./check C11'),
     flow.Unit('sedov-guderley', groups=[], props=[], oracle=SS.oracle, always_oracle=True,
               note='Sedov with power-law ambient density (image that keeps E and rho0 fixed) and Guderley (equal Lazarus-time / r^lambda, all four regions) on the real '
                    'code; both solvers involve quadrature / ODE integration (class NU)'),
